@@ -38,6 +38,89 @@ DIMS = [1, 2, 3, 5, 8, 13, 20, 40]
 DIM_W = [0.08, 0.17, 0.2, 0.2, 0.15, 0.1, 0.06, 0.04]
 
 
+def initial_point_and_params(cfg):
+    """start point and parameter slots of a run: a pure function of the config"""
+    n = int(cfg['n'])
+    rng = np.random.Generator(np.random.PCG64(int(cfg['x0seed'])))
+    x0 = rng.normal(size=n) * float(cfg['x0scale'])
+    pnp = [rng.normal(size=families.M) * 0.3, rng.normal(size=families.M) * 0.3,
+           rng.normal(size=families.M) * 0.3, None, float(rng.normal() * 0.3), None]
+    return x0, pnp
+
+
+def find_hump_instance(rng, cfg):
+    """Generator-side construction (numpy only) of a 2-dof cubic energy and a start x0 such that, with
+    the default radius rules (radius 2, shrink factor 1/4): (1) the full Newton step from x0 is accepted
+    and lands at the origin, where the Hessian H is indefinite; (2) there the direction -P g (P = inverse
+    of the Hessian at x0: the stale preconditioner) has negative curvature and the step to the boundary
+    along it is uphill for the true objective (rejected); (3) the dogleg point between the gradient Cauchy
+    point and that boundary point at the reduced radius has a POSITIVE model value and is uphill too.
+    This is the alignment under which the solver's re-signing of the reduction ratio for an increasing
+    model decides acceptance.  Triples (g, H, H0) are found by vectorised rejection sampling; the cubic
+    coefficients follow from  H(x0) = H0  and the Newton condition  s = 2 (H - H0)^-1 g."""
+    D, t1 = 2.0, 0.25
+    N = 20000
+    for _ in range(6):
+        th = rng.uniform(0, np.pi, N)
+        l1, l2 = 10 ** rng.uniform(0.5, 2, N), -10 ** rng.uniform(0.5, 2, N)
+        c_, s_ = np.cos(th), np.sin(th)
+        H = np.empty((N, 2, 2))
+        H[:, 0, 0], H[:, 1, 1] = l1 * c_ * c_ + l2 * s_ * s_, l1 * s_ * s_ + l2 * c_ * c_
+        H[:, 0, 1] = H[:, 1, 0] = (l1 - l2) * c_ * s_
+        th0 = rng.uniform(0, np.pi, N)
+        m1 = 10 ** rng.uniform(0, 2, N)
+        m2 = m1 * 10 ** rng.uniform(0, 2, N)
+        c0, s0 = np.cos(th0), np.sin(th0)
+        H0 = np.empty((N, 2, 2))
+        H0[:, 0, 0], H0[:, 1, 1] = m1 * c0 * c0 + m2 * s0 * s0, m1 * s0 * s0 + m2 * c0 * c0
+        H0[:, 0, 1] = H0[:, 1, 0] = (m1 - m2) * c0 * s0
+        g = rng.normal(size=(N, 2)) * 10 ** rng.uniform(-0.5, 1, N)[:, None]
+        gHg = np.einsum('ni,nij,nj->n', g, H, g)
+        ok = gHg > 0
+        cp = -(np.einsum('ni,ni->n', g, g) / np.where(ok, gHg, 1.0))[:, None] * g
+        ok &= np.linalg.norm(cp, axis=1) < t1 * D
+        d = -np.linalg.solve(H0, g[:, :, None])[:, :, 0]
+        ok &= np.einsum('ni,nij,nj->n', d, H, d) < 0
+        qn = D * d / np.linalg.norm(d, axis=1)[:, None]
+        e = qn - cp
+        a_, b_ = np.einsum('ni,ni->n', e, e), 2 * np.einsum('ni,ni->n', cp, e)
+        c2 = np.einsum('ni,ni->n', cp, cp) - (t1 * D) ** 2
+        tau = (-b_ + np.sqrt(np.maximum(b_ * b_ - 4 * a_ * c2, 0))) / (2 * a_)
+        dl = cp + tau[:, None] * e
+        m = np.einsum('ni,ni->n', g, dl) + 0.5 * np.einsum('ni,nij,nj->n', dl, H, dl)
+        ok &= m > 0
+        with np.errstate(all='ignore'):
+            sN = 2 * np.linalg.solve(H - H0, g[:, :, None])[:, :, 0]
+        ok &= np.all(np.isfinite(sN), axis=1) & (np.linalg.norm(sN, axis=1) < D)
+        for i in np.flatnonzero(ok):
+            s = sN[i]
+            T = rng.normal(size=(families.K3, 2))
+            T /= np.linalg.norm(T, axis=1)[:, None]
+            Mx = np.array([(T[k] @ s) * np.array([T[k, 0] ** 2, T[k, 0] * T[k, 1], T[k, 1] ** 2]) for k in range(families.K3)]).T
+            rhs = (H[i] - H0[i])[[0, 0, 1], [0, 1, 1]]
+            try:
+                c3 = np.linalg.solve(Mx, rhs)
+            except np.linalg.LinAlgError:
+                continue
+            if not np.all(np.isfinite(c3)) or np.max(np.abs(c3)) > 1e4 * np.max(np.abs(H[i])):
+                continue
+            ex = {'H': H[i].tolist(), 'g': g[i].tolist(), 'c3': c3.tolist(), 'T': T.tolist()}
+            c = dict(cfg, n=2, explicit=ex)
+            ev = families.Evaluator(families.make_coefs(c))
+            _, pnp = initial_point_and_params(c)
+            x0 = -s
+            f0, f1 = ev.value(x0, pnp), ev.value(np.zeros(2), pnp)
+            H0c, g0 = ev.hess(x0, pnp), ev.grad(x0, pnp)
+            if np.max(np.abs(H0c - H0[i])) > 1e-8 * np.max(np.abs(H0[i])):
+                continue
+            mN = g0 @ s + 0.5 * s @ H0c @ s
+            if not (mN < 0 and (f0 - f1) >= 0.2 * (-mN)):
+                continue
+            if ev.value(qn[i], pnp) > f1 and ev.value(dl[i], pnp) > f1 + 1e-6 * (abs(f0) + abs(f1)):
+                return ex, x0.tolist()
+    return None
+
+
 def gen_settings(rng, mode):
     """mode: 'default' | 'swarm' | 'caps'"""
     if mode == 'default':
@@ -84,7 +167,7 @@ def gen_config(rng, prop, fault_mode):
     elif prop == 'C06':
         fam = 'Qi' if r < 0.5 else ('S' if r < 0.7 else ('Qc' if r < 0.9 else 'Q+'))
     else:
-        fam = 'Qc' if r < 0.4 else ('Qi' if r < 0.7 else ('Q+' if r < 0.8 else ('S' if r < 0.9 else 'L')))
+        fam = 'Qc' if r < 0.35 else ('Qi' if r < 0.55 else ('Q+' if r < 0.62 else ('S' if r < 0.7 else ('L' if r < 0.8 else 'P'))))
     if fam == 'L':
         n = 1
     cond = float(10.0 ** rng.uniform(0, 3)) if (fam == 'Qc' and rng.random() < 0.6) or prop == 'C19' \
@@ -107,11 +190,18 @@ def gen_config(rng, prop, fault_mode):
         # rounding, which is what the degenerate "hard case" of the exact sub-problem solver needs
         cfg.update(quartic=False, nneg=max(1, cfg['nneg']), precond=str(rng.choice(['poor', 'diag'])),
                    cond=float(10.0 ** rng.uniform(0, 2)))
+    if fam == 'P':
+        # polynomial snap-through energies: cubic coupling + radial quartic/sextic; start in a convex
+        # region whose Newton step lands where the Hessian is indefinite (stale preconditioner there)
+        cfg.update(n=int(rng.choice([2, 2, 3, 5])), cond=float(10.0 ** rng.uniform(0, 1.5)), sigscale=float(10.0 ** rng.uniform(0, 1.5)),
+                   nneg=1, nzero=0, quartic=False, cos=False, nonlinear_p=False, precond=str(rng.choice(['hess', 'none'])),
+                   c3scale=float(10.0 ** rng.uniform(0, 1)), bscale=float(10.0 ** rng.uniform(-1, 0.7)))
+        cfg['nneg'] = int(rng.integers(1, cfg['n']))
     if fam == 'L':
         cfg.update(nneg=0, quartic=False, cond=1.0, sigscale=float(10.0 ** rng.uniform(-1.5, 0)),
                    ascale=float(10.0 ** rng.uniform(-0.3, 0.7)), wscale=1.0, nonlinear_p=False)
     if fault_mode and rng.random() < 0.3:
-        a = rng.normal(size=n)
+        a = rng.normal(size=cfg['n'])
         a /= np.linalg.norm(a)
         cfg['barrier'] = {'a': a.tolist(), 'c': float(abs(rng.normal()) * 2 + 0.5)}
     return cfg
@@ -169,6 +259,19 @@ def gen_program(rng, prop, tier, run_index):
     if cfg['family'] == 'S' and prop == 'C06' and rng.random() < 0.7:
         ops[0] = {'op': 'subspace', 'settings': {'tr_size': float(10.0 ** rng.uniform(-1, 1)),
                                                  'max_trust_iters': int(rng.integers(1, 6))}}
+    if cfg['family'] == 'P' and not cfg.get('barrier') and rng.random() < 0.7:
+        found = find_hump_instance(rng, cfg)
+        if found:
+            cfg.update(n=2, nneg=1, nonlinear_p=False, scaled_replica=False)
+            cfg['explicit'], cfg['x0'] = found
+            cfg['precond'] = str(rng.choice(['hess', 'none']))
+            ops[0] = {'op': 'solve', 'driver': 'nes', 'warm': False, 'upd': True, 'dp': {},
+                      'settings': {} if rng.random() < 0.6 else {'max_trust_iters': int(rng.integers(2, 6))}}
+    elif cfg['family'] == 'P':
+        st = {} if rng.random() < 0.5 else {'tr_size': float(rng.choice([0.5, 1.0, 2.5, 5.0]))}
+        if rng.random() < 0.3:
+            st['max_trust_iters'] = int(rng.integers(2, 8))
+        ops[0] = {'op': 'solve', 'driver': 'nes', 'warm': False, 'upd': True, 'dp': {}, 'settings': st}
     if cfg['family'] == 'L':
         ops[0] = {'op': 'solve', 'driver': 'trm', 'warm': False, 'upd': True, 'dp': {},
                   'settings': {'tr_size': 1e3, 'tol': float(10.0 ** rng.uniform(-8, -5))}}
@@ -308,14 +411,14 @@ class App:
         self.coefs = families.make_coefs(cfg)
         self.ev = families.Evaluator(self.coefs)
         self.jc = families.to_jax_coefs(self.coefs)
-        rng = np.random.Generator(np.random.PCG64(int(cfg['x0seed'])))
-        x0 = rng.normal(size=n) * float(cfg['x0scale'])
-        self.pnp = [rng.normal(size=families.M) * 0.3, rng.normal(size=families.M) * 0.3,
-                    rng.normal(size=families.M) * 0.3, None, float(rng.normal() * 0.3), None]
+        x0, self.pnp = initial_point_and_params(cfg)
+        rng = np.random.Generator(np.random.PCG64(int(cfg['x0seed']) + 11))
         if cfg['family'] == 'S':
             x0 = self.symmetric_start(x0)
         if cfg['family'] == 'L':
             x0 = self.landing_start(x0)
+        if cfg['family'] == 'P':
+            x0 = np.asarray(cfg['x0'], dtype=float) if cfg.get('x0') else self.snap_start(x0)
         if cfg.get('barrier'):
             a, c = np.asarray(cfg['barrier']['a']), cfg['barrier']['c']
             if a @ x0 > c - 0.25:     # move the start to the finite side with margin
@@ -457,6 +560,27 @@ class App:
         y[nz] = (Q.T @ lin)[nz] / sig[nz]
         x = Q @ y + 0.7 * Q[:, j] * np.sign(x0[0] + 1e-300)
         return x
+
+    def snap_start(self, x0):
+        """A start where the Hessian is positive definite and whose full Newton step lands where it is
+        indefinite: the solver then works in the indefinite region with the preconditioner factorised
+        at the start."""
+        ev, p = self.ev, self.pnp
+        rs = np.random.Generator(np.random.PCG64(int(self.cfg['x0seed']) + 3))
+        for _ in range(400):
+            x = rs.normal(size=self.n)
+            x *= rs.uniform(0.2, 2.0) / np.linalg.norm(x)
+            H = ev.hess(x, p)
+            w = np.linalg.eigvalsh(H)
+            if w[0] <= 1e-3 * w[-1]:
+                continue
+            xn = x - np.linalg.solve(H, ev.grad(x, p))
+            if np.linalg.norm(xn - x) > 3.0:
+                continue
+            if np.linalg.eigvalsh(ev.hess(xn, p))[0] < -1e-3 * w[-1]:
+                self.ctx.probe('P:snap_start_built')
+                return x
+        return x0
 
     def landing_start(self, x0):
         """n = 1.  Find a start in a convex region (f'' > 0) whose full Newton step lands, to
@@ -776,6 +900,10 @@ class App:
                     fprev = None
                     continue
                 fv, mv = ev.value(v, pnew), ev.value_mag(v, pnew)
+                if not (np.isfinite(fv) and np.isfinite(mv)):
+                    ctx.skip('C01.descent/evaluator_overflow')
+                    fprev = None
+                    continue
                 if fprev is not None:
                     rho = 1e3 * core.EPS * (mv + mprev)
                     final_success = bool(flag and k == len(seq) - 1)
